@@ -546,15 +546,27 @@ PROPS["C10"] = {
                    "(signRole_none_iff); update_delegated_targets replaces a role only by metadata that meets the delegating "
                    "role's threshold and is not older (update_checked); add_role (after the repair) grafts only metadata a "
                    "threshold of the registered keys signed, which the client's identical check then accepts "
-                   "(add_role_checked); the unrepaired add_role is refuted by a witness. No client ever loads a tree that holds a role name twice (duplicate_role_names_never_load, via Proofs/ClientNames.lean: the names of a loaded tree are pairwise distinct), so sign (after the repair) refuses such a tree. Correspondence: the outcome of every "
+                   "(add_role_checked); the unrepaired add_role is refuted by a witness. No client ever loads a tree that holds a role name twice (duplicate_role_names_never_load, via Proofs/ClientNames.lean: the names of a loaded tree are pairwise distinct), so sign (after the repair) refuses such a tree. End to end: editor_roundtrip - the client model's update cycle on the directory the editor model writes (Tough/Model/Publish.lean: file names, snapshot and timestamp entries from the written buffers) returns exactly the signed root, timestamp, snapshot and delegation tree, for trees of any shape (Tough/Proofs/PublishTree.lean: fetch and attach passes by induction over the roles of a delegation, load_delegations by induction over the depth, with the visited-set bookkeeping), and written_meta_describes_files. The written directory of every published program is compared with Publish.lean's (file names, snapshot keys and versions, which entry describes which file). Correspondence: the outcome of every "
                    "step of the program, whether a repository is published, and everything a client sees of it, vs the model; "
                    "the property is evaluated directly (published => loads, describes its files, every listed target "
                    "downloads byte-identical).",
-    "level_text": "Kernel-checked decision logic of signing and of incorporating foreign metadata; differential runs of editing "
-                  "programs incl. the cross-party flow against the real editor and a fresh client.",
-    "level_note": "PARTIAL: the end-to-end theorem (editor_roundtrip: the update cycle of the client model succeeds on the written "
-                  "files with the intended view) is stated in Tough/Props/C10.lean and not proved; it is checked by "
-                  "correspondence. What the signed documents contain is C17's editor model. Known finding: listed targets "
+    "level_text": "Kernel-checked round trip: the update cycle of the client model, run on the files the editor model writes, "
+                  "succeeds and yields exactly the signed documents (by induction over the delegation tree, any depth and width); "
+                  "kernel-checked decision logic of signing and of incorporating foreign metadata; differential runs of editing "
+                  "programs incl. the cross-party flow against the real editor and a fresh client, the written directory compared "
+                  "file by file with the model's.",
+    "level_note": "The end-to-end statement is proved over the models (editor_roundtrip in Tough/Props/C10.lean, via "
+                  "Tough/Model/Publish.lean and Tough/Proofs/Publish*.lean): for every tree of signed targets documents in which "
+                  "each delegated role is attached under its delegation and meets its keys and threshold (what signRole_verifies "
+                  "/ add_role_checked / update_checked provide), with pairwise distinct role names and reachable targets (sign's "
+                  "two final checks), the client with the same root and a fresh datastore loads the written directory and obtains "
+                  "the identical root, timestamp, snapshot and tree; the written snapshot and timestamp entries describe the "
+                  "written buffers (written_meta_describes_files). PARTIAL with respect to what is modelled rather than verified: "
+                  "serialisation is abstract (a document's buffer has a length and a digest; that parsing the buffer gives the "
+                  "document back is C12/C17 and the differential runs); role names are identifiers (file-name encoding is C16; a "
+                  "delegated role named like a top-level role is outside the model); publication and download of target files "
+                  "rest on C08 and are exercised, not proved; the editing operations that build the tree are exercised by the "
+                  "differential runs (their effect on document contents is C17's editor model). Known finding: listed targets "
                   "whose names need URL escaping do not download through file:// (same as C19).",
     "trusted": ["modelled, not verified: key parsing, signature primitives, serde serialisation of the written files"],
     "assumptions": ["key files name distinct keys"],
